@@ -227,8 +227,7 @@ static void witness(const char *suite, int N, int C, const float *mem, const flo
 }
 
 /* The per-call predicates of the property on one call (zero-initialised or carried memory mem0, finite input x0):
-   1 bounded, 2 sign flipped, 3 sign flipped by a rounding residue, 4 pass-through.  Output in y / mem. */
-#define RESIDUE_LIMIT 9.5367431640625e-07f   /* 2^-20 */
+   1 bounded, 2 sign flipped (strict: any sample, however small), 4 pass-through.  Output in y / mem. */
 typedef struct { int kind, idx; char exp[160], obs[200]; } viol;
 static void eval_call(int N, int C, const float *mem0, const float *x0, float *y, float *mem, viol *v)
 {
@@ -244,7 +243,7 @@ static void eval_call(int N, int C, const float *mem0, const float *x0, float *y
       v->kind = 1; v->idx = i; snprintf(v->exp, sizeof v->exp, "every output sample in [-1, 1]");
       snprintf(v->obs, sizeof v->obs, "out[%d]=%.9g (bits %08x) for in[%d]=%.9g", i, y[i], f2u(y[i]), i, x0[i]); return; }
    for (i = 0; i < N * C; i++) if ((x0[i] > 0 && y[i] < 0) || (x0[i] < 0 && y[i] > 0)) {
-      v->kind = (fabsf(x0[i]) < RESIDUE_LIMIT && fabsf(y[i]) < RESIDUE_LIMIT) ? 3 : 2; v->idx = i;
+      v->kind = 2; v->idx = i;
       snprintf(v->exp, sizeof v->exp, "out[%d] has the sign of in[%d] (or is zero)", i, i);
       snprintf(v->obs, sizeof v->obs, "in[%d]=%.9g (bits %08x) out[%d]=%.9g (bits %08x)", i, x0[i], f2u(x0[i]), i, y[i], f2u(y[i])); return; }
    if (allin && memzero) {
@@ -262,12 +261,11 @@ static void eval_call(int N, int C, const float *mem0, const float *x0, float *y
 static void report_shrunk(int N, int C, const float *mem0, const float *x0, const viol *v0)
 {
    static float xs[5760], ys[5760]; float m0, m1; viol v; int i, c = v0->idx % C, n, best = -1;
-   static const char *suites[] = {"", "softclip-bounded", "softclip-sign", "softclip-sign-residue", "softclip-passthrough"};
+   static const char *suites[] = {"", "softclip-bounded", "softclip-sign", "softclip-sign", "softclip-passthrough"};
    static const char *whys[] = {"", "the soft clipper must map any finite input to samples in [-1, 1]",
       "the soft clipper must never flip a sample's sign",
-      "the soft clipper flipped the sign of a near-zero sample: |input| < 2^-20 and |output| < 2^-20 (rounding residue of the special-case ramp `offset -= delta`, src/opus.c:123-128)",
+      "the soft clipper must never flip a sample's sign",
       "a signal already inside [-1, 1] with cleared memory must be left bit-for-bit untouched"};
-   if (v0->kind == 3) n_residue++;
    for (i = 0; i < N; i++) xs[i] = x0[i * C + c];
    m0 = mem0[c];
    for (n = 1; n <= N; n++) { eval_call(n, 1, &m0, xs, ys, &m1, &v); if (v.kind == v0->kind) { best = n; break; } }
@@ -297,6 +295,7 @@ static void run_search(uint64_t seed, long cases)
          for (c = 0; c < C; c++) if (f2u(mem0[c]) != 0) memzero = 0;
          if (!allin) n_active++;
          if (allin && memzero) n_pass++;
+         if (v.kind == 2) n_residue++;
          if (v.kind) report_shrunk(N, C, mem0, x0, &v);
          /* channel independence: the same data channel by channel */
          {
@@ -330,7 +329,7 @@ static void run_search(uint64_t seed, long cases)
          }
       }
    }
-   printf("STAT cases=%ld active=%ld passthrough=%ld channel=%ld degenerate=%ld sign_residue_flips=%ld witnesses=%ld fam=%ld,%ld,%ld,%ld,%ld,%ld,%ld,%ld,%ld\n",
+   printf("STAT cases=%ld active=%ld passthrough=%ld channel=%ld degenerate=%ld sign_flips=%ld witnesses=%ld fam=%ld,%ld,%ld,%ld,%ld,%ld,%ld,%ld,%ld\n",
           n_cases, n_active, n_pass, n_chan, n_degen, n_residue, n_wit, famhist[0], famhist[1], famhist[2], famhist[3], famhist[4], famhist[5], famhist[6], famhist[7], famhist[8]);
 }
 
@@ -357,6 +356,7 @@ static void gen_audio(vrng *r, float *pcm, int n, int ch, int kind, double *phas
    }
 }
 
+static int corpus_mode;   /* gaincorpus: every stream alternates SILK-only / CELT-only packets on every frame, no loss, fixed gains */
 static double gain_tol = 4e-6;   /* relative tolerance of the gain factor against 10^(g/5120); overridden by argv[4] (tools/props/C19_calib.json) */
 static void run_gainsearch(uint64_t seed, long streams)
 {
@@ -393,7 +393,8 @@ static void run_gainsearch(uint64_t seed, long streams)
       /* mode-switching streams: a second encoder forced to the other coding mode; the packet fed to the decoders alternates
          between the two every 1..3 frames, so the decoder goes through SILK<->CELT transitions without redundancy frames
          (the recursive opus_decode_frame call for the cross-fade, src/opus_decoder.c:373-377 and 511-515) */
-      OpusEncoder *enc2 = NULL; int dual = (s % 3) == 1, use2 = 0, hold = 0;
+      OpusEncoder *enc2 = NULL; int dual = corpus_mode || (s % 3) == 1, use2 = 0, hold = 0;
+      if (corpus_mode) { static const int cg[] = {256, 5120, -13232, 31747, -16422, 1}; g = cg[s % 6]; }
       if (dual) {
          if (fs48 < 480) { fs48 = 960; fsz = fs48 * (Fs / 1000) / 48; }
          enc2 = opus_encoder_create(Fs, ch, app, &err);
@@ -406,7 +407,7 @@ static void run_gainsearch(uint64_t seed, long streams)
       if (opus_decoder_ctl(dg, OPUS_SET_GAIN(g)) != OPUS_OK || opus_decoder_ctl(eg, OPUS_SET_GAIN(g)) != OPUS_OK) { printf("W gain-ctl | OPUS_SET_GAIN(%d) | OPUS_OK | error | every gain in [-32768, 32767] must be accepted\n", g); wit++; }
       G = g ? celt_exp2(MULT16_16_P15(QCONST16(6.48814081e-4f, 25), g)) : 1.f;
       for (f = 0; f < nframes; f++) {
-         int len, n0, ng, m0, mg, lose = f > 1 && vchance(&r, 12), fec = 0;
+         int len, n0, ng, m0, mg, lose = f > 1 && vchance(&r, 12) && !corpus_mode, fec = 0;
          opus_uint32 r0, rg, q0, qg;
          gen_audio(&r, in, fsz, ch, kind, phase, amp);
          len = opus_encode_float(enc, in, fsz, pkt, sizeof pkt);
@@ -414,7 +415,7 @@ static void run_gainsearch(uint64_t seed, long streams)
          if (dual) {
             unsigned char pkt2[4000]; int len2 = opus_encode_float(enc2, in, fsz, pkt2, sizeof pkt2);
             if (len2 < 0) break;
-            if (hold-- <= 0) { use2 = !use2; hold = vbelow(&r, 3); }
+            if (hold-- <= 0) { use2 = !use2; hold = corpus_mode ? 0 : vbelow(&r, 3); }
             if (use2) { memcpy(pkt, pkt2, len2); len = len2; }
          }
          if (lose) { lost++; n0 = opus_decode_float(d0, NULL, 0, o0, fs48 * (dFs / 1000) / 48, 0); ng = opus_decode_float(dg, NULL, 0, og, fs48 * (dFs / 1000) / 48, 0);
@@ -478,11 +479,12 @@ int main(int argc, char **argv)
    vinstall_traps();
    if (argc >= 2 && !strcmp(argv[1], "stdin")) { run_stdin(); return 0; }
    if (argc >= 5 && !strcmp(argv[1], "gainsearch")) gain_tol = atof(argv[4]);
+   if (argc >= 2 && !strcmp(argv[1], "gaincorpus")) { corpus_mode = 1; if (argc >= 3) gain_tol = atof(argv[2]); run_gainsearch(0xC0FFEEULL, 12); return 0; }
    if (argc >= 4 && !strcmp(argv[1], "rand")) run_rand(strtoull(argv[2], 0, 10), atol(argv[3]));
    else if (argc >= 2 && !strcmp(argv[1], "edge")) run_edge();
    else if (argc >= 3 && !strcmp(argv[1], "gain")) run_gain(atoi(argv[2]));
    else if (argc >= 4 && !strcmp(argv[1], "search")) run_search(strtoull(argv[2], 0, 10), atol(argv[3]));
    else if (argc >= 4 && !strcmp(argv[1], "gainsearch")) run_gainsearch(strtoull(argv[2], 0, 10), atol(argv[3]));
-   else { fprintf(stderr, "usage: c19_softclip rand <seed> <n> | edge | gain <level> | search <seed> <n> | gainsearch <seed> <n>\n"); return 64; }
+   else { fprintf(stderr, "usage: c19_softclip rand <seed> <n> | edge | gain <level> | search <seed> <n> | gainsearch <seed> <n> [tol] | gaincorpus [tol] | stdin\n"); return 64; }
    return 0;
 }
